@@ -5,7 +5,7 @@ VERIF = os.path.dirname(os.path.dirname(os.path.abspath(__file__)))
 CHECKS = {
  'C16': dict(
     text='TLC model-checks spec/SDict.tla (ordered-map machine, full add_item argument space) exhaustively; every '
-         'explored edge is replayed on SortableDict and MetadataObject and long seeded histories of the real classes '
+         'explored edge is replayed on SortableDict, MetadataObject and the column map of a Grid (grid.column, whose validator is the version gate) and long seeded histories of the real classes '
          'are validated by Trace_SDict.tla.  Exhaustive within the bound, independent oracle.',
     ref='DESIGN.md 5/C16', technique='TLA+ spec SDict + TLC exhaustive model check; TLC edge generation replayed on the code; TLC trace validation of recorded histories',
     note='keys/values are small abstract alphabets; negative indices not claimed; TLC, CPython trusted'),
